@@ -37,7 +37,7 @@ func ruleFamilyFanOut(w *World, r *Report, ruleB, ruleC string) {
 			continue // family not registered this way any more
 		}
 		if ruleB != "" {
-			con := ci.Name() + "#family:" + f.name
+			con := "createInstance#family:" + f.name
 			has := strings.Contains(outConds, f.outMark)
 			if f.name == "As" {
 				// an alias fan-out must learn the sibling aliases: reads descriptor.As or a shared-constructor relation
@@ -79,20 +79,20 @@ func ruleFamilyFanOut(w *World, r *Report, ruleB, ruleC string) {
 			}{il.Coll, il.Body}
 			for _, c := range callsIn(rs.Body, false) {
 				cal := callee(info, c)
-				if cal == nil || cal.Name() != "findDescriptor" || len(c.Args) != 2 {
+				if !w.IsFn(cal, w.Godi, "(*provider).findDescriptor") || len(c.Args) != 2 {
 					continue
 				}
 				fam := "result-object"
 				if strings.Contains(exprStr(rs.X), "Returns") {
 					fam = "multi-return"
 				}
-				con := fmt.Sprintf("%s#fan-out-lookup:%s", ci.Name(), fam)
+				con := fmt.Sprintf("createInstance#fan-out-lookup:%s", fam)
 				var problems []string
 				// does the loop consult the groups view for members registered into a group?
 				looksAtGroups := false
 				ast.Inspect(rs.Body, func(y ast.Node) bool {
 					if cc, ok := y.(*ast.CallExpr); ok {
-						if cal2 := callee(info, cc); cal2 != nil && cal2.Name() == "findGroupDescriptors" {
+						if cal2 := callee(info, cc); w.IsFn(cal2, w.Godi, "(*provider).findGroupDescriptors") {
 							looksAtGroups = true
 						}
 					}
@@ -160,7 +160,7 @@ func ruleCheckThenAct(w *World, r *Report, rule string, la *LockAnalysis) {
 	ro := resolveRoles(w)
 	fi := ro.resolve
 	info := fi.Pkg.TypesInfo
-	con := fi.Name() + "#Scoped:check-then-act"
+	con := "resolve#Scoped:check-then-act"
 	// (a) one lock held from the miss test to the fill
 	heldAcross := false
 	for _, n := range la.byFunc[fi.Obj].flow.Nodes() {
